@@ -2,43 +2,30 @@ package main
 
 import (
 	"fmt"
-	"os"
 
-	iavl2 "github.com/cosmos/iavl/v2"
+	"github.com/cosmos/iavl"
+
+	"verif/internal/seam"
 )
 
-type lg struct{}
-
-func (lg) Info(string, ...any)  {}
-func (lg) Warn(string, ...any)  {}
-func (lg) Debug(string, ...any) {}
-func (lg) Error(msg string, kv ...any) { fmt.Println("ERROR", msg, kv) }
-
 func main() {
-	for i := 0; i < 300; i++ {
-		dir, _ := os.MkdirTemp("", "v2close")
-		pool := iavl2.NewNodePool()
-		sql, err := iavl2.NewSqliteDb(pool, iavl2.SqliteDbOptions{Path: dir, Logger: lg{}})
-		if err != nil {
-			panic(err)
-		}
-		opts := iavl2.DefaultTreeOptions()
-		opts.CheckpointInterval = 1
-		opts.StateStorage = true
-		t := iavl2.NewTree(sql, pool, opts)
-		for v := 0; v < 3; v++ {
-			t.Set([]byte(fmt.Sprintf("k%d", v)), []byte("v"))
-			if _, _, err := t.SaveVersion(); err != nil {
-				panic(err)
-			}
-		}
-		if err := t.DeleteVersionsTo(2); err != nil {
-			panic(err)
-		}
-		if err := t.Close(); err != nil {
-			fmt.Println("close error:", err)
-		}
-		os.RemoveAll(dir)
+	st := seam.NewMemStore()
+	t := iavl.NewMutableTree(st, 0, false, iavl.NewNopLogger())
+	t.Load()
+	for i := 1; i <= 12; i++ {
+		t.Set([]byte(fmt.Sprintf("k%d", i)), []byte("v"))
+		t.SaveVersion()
 	}
-	fmt.Println("survived 300 rounds of DeleteVersionsTo + Close")
+	t.DeleteVersionsTo(3)
+	for n := 0; n < 40; n++ {
+		w := seam.NewWrap(st.Clone())
+		w.ArmFault(n, seam.KHas)
+		h := iavl.NewMutableTree(w, 0, false, iavl.NewNopLogger())
+		lv, err := h.LoadVersion(10)
+		fired := w.Disarm()
+		if len(fired) == 0 {
+			break
+		}
+		fmt.Println("fault", n, "LoadVersion(10) =", lv, err, "avail", h.AvailableVersions(), h.VersionExists(4))
+	}
 }
